@@ -22,6 +22,7 @@ type State struct {
 	heaps map[string]string
 	epoch int
 	top   string
+	tag   string
 }
 
 func (s *State) clone() *State {
